@@ -52,6 +52,8 @@ type Plan struct {
 	KnownHeader  bool `json:"known_header,omitempty"` // C06: genuine header recorded ahead of the block, block with another witness
 	// C06: after the main run a block carrying a transaction named by on-chain Conflicts attributes is delivered
 	ConflictAttack bool `json:"conflict_attack,omitempty"`
+	// C06: a header batch whose first header (known index, other content) names the signer of the second one
+	ForgedHeaders bool `json:"forged_headers,omitempty"`
 	// TailSeed seeds the decision stream that answers once the explicit tape is used up (0: every further decision is
 	// the default one - no optional fault, no optional check)
 	TailSeed uint64 `json:"plan_tail_seed,omitempty"`
@@ -164,9 +166,22 @@ func (Engine) drawPlan(rt *rapid.T, prop, tier string) any {
 		maxB += 12
 	}
 	p.Blocks = drawBlocks(rt, 2, maxB, p.Proto.P2PSig)
+	long := rapid.IntRange(0, 4).Draw(rt, "longchain") == 0
+	if long {
+		// a chain that crosses header hash pages (16 headers under the verif build tag) with a short traceable window
+		for n := rapid.IntRange(14, 30).Draw(rt, "nempty"); n > 0; n-- {
+			p.Blocks = append(p.Blocks, BlockPlan{})
+		}
+		p.Proto.MTB = []uint32{8, 12, 20}[rapid.IntRange(0, 2).Draw(rt, "mtblong")]
+	}
 	nrep := rapid.IntRange(1, 3).Draw(rt, "nrep")
 	for i := 0; i < nrep; i++ {
-		p.Locals = append(p.Locals, drawLocal(rt, len(p.Blocks)))
+		l := drawLocal(rt, len(p.Blocks))
+		if long && i == 0 {
+			l.RemoveOld = true
+			l.FlushGC = true
+		}
+		p.Locals = append(p.Locals, l)
 	}
 	p.Election = drawElection(rt)
 	nt := rapid.IntRange(0, 3).Draw(rt, "nticks")
@@ -213,6 +228,7 @@ type run struct {
 	oraNilResultAt uint32
 	// heights of the blocks holding a response to a request older than MaxTraceableBlocks
 	oraStaleAt map[uint32]bool
+	afterX     []*transaction.Transaction // C04: halting transactions that follow X / its twin in the block
 }
 
 func (r *run) violate(v *sim.Violation) {
